@@ -619,6 +619,89 @@ fn check_comparisons(w: &mut W, res: &mut Res, tier: Tier) {
     }
 }
 
+/// comparisons between two DIFFERENT integer types: the mathematical order of the two values, whatever the
+/// common type the binder picks (a lossy common type such as a float makes 2^63-1 = 2^63)
+fn check_mixed_int_comparisons(w: &mut W, res: &mut Res, tier: Tier) {
+    use glaredb_core::arrays::datatype::DataTypeId as T;
+    let ints = [T::Int8, T::Int16, T::Int32, T::Int64, T::UInt8, T::UInt16, T::UInt32, T::UInt64];
+    let extra = |t: T| -> Vec<&'static str> {
+        match t {
+            T::Int8 => vec!["126"],
+            T::UInt8 => vec!["127", "128"],
+            T::Int16 => vec!["127", "128", "255", "256", "32766"],
+            T::UInt16 => vec!["32767", "32768", "255", "256"],
+            T::Int32 => vec!["32767", "32768", "65535", "65536", "2147483646", "16777217"],
+            T::UInt32 => vec!["2147483647", "2147483648", "65535", "65536", "16777217"],
+            T::Int64 => vec!["2147483647", "2147483648", "4294967295", "4294967296", "9223372036854775806", "9007199254740993", "9007199254740992"],
+            T::UInt64 => vec!["9223372036854775807", "9223372036854775808", "4294967295", "4294967296", "9007199254740993", "18446744073709551614"],
+            _ => vec![],
+        }
+    };
+    let vals = |t: T| -> Vec<String> {
+        let mut v = fnreg::alphabet(t, false).unwrap();
+        let ty = fnreg::sql_type(t).unwrap();
+        v.extend(extra(t).into_iter().map(|l| format!("CAST({l} AS {ty})")));
+        v
+    };
+    let quick_pairs = [(T::UInt64, T::Int64), (T::Int64, T::UInt64), (T::UInt32, T::Int32), (T::Int32, T::UInt32), (T::Int8, T::UInt8), (T::UInt64, T::Int8), (T::Int16, T::UInt64), (T::Int32, T::Int64), (T::UInt16, T::Int64), (T::UInt8, T::Int32), (T::Int64, T::Int16), (T::UInt32, T::UInt64)];
+    for ta in ints {
+        for tb in ints {
+            if ta == tb || (!tier.is_thorough() && !quick_pairs.contains(&(ta, tb))) {
+                continue;
+            }
+            let (va, vb) = (vals(ta), vals(tb));
+            let mut rows = Vec::new();
+            let mut k = 0;
+            for a in &va {
+                for b in &vb {
+                    rows.push(format!("({k}, {a}, {b})"));
+                    k += 1;
+                }
+            }
+            let v = format!("(VALUES {}) v(id, a, b)", rows.join(", "));
+            let sql = format!("SELECT id, a, b, a = b, a <> b, a < b, a <= b, a > b, a >= b, a IS DISTINCT FROM b, a BETWEEN b AND b, a IN (b) FROM {v}");
+            let variants: Vec<(&str, Vec<&str>)> = if tier.is_thorough() { vec![("default", vec![]), ("noopt", vec!["SET enable_optimizer TO false"])] } else { vec![("default", vec![])] };
+            for (vn, sets) in variants {
+                for s in &sets {
+                    w.set(s);
+                }
+                let o = w.q(&sql);
+                res.evals += 1;
+                if !sets.is_empty() && !w.d.dirty {
+                    w.set("SET enable_optimizer TO true");
+                }
+                let setv: Vec<String> = sets.iter().map(|s| s.to_string()).collect();
+                match &o {
+                    Outcome::Rows(r) => {
+                        for row in &r.rows {
+                            let (Some(a), Some(b)) = (row[1].as_int(), row[2].as_int()) else {
+                                // NULL operand: every predicate but IS DISTINCT FROM is NULL
+                                let both_null = row[1].is_null() && row[2].is_null();
+                                let want = [Val::Null, Val::Null, Val::Null, Val::Null, Val::Null, Val::Null, Val::Bool(!both_null), Val::Null, Val::Null];
+                                if row[3..12] != want[..] {
+                                    fail(res, format!("C05|cmp-mixed:null|{ta}x{tb}"), &sql, &setv, format!("{:?}", want), format!("{:?}", &row[3..12]), format!("variant={vn}"));
+                                }
+                                continue;
+                            };
+                            let want = [a == b, a != b, a < b, a <= b, a > b, a >= b, a != b, a == b, a == b];
+                            let names = ["=", "<>", "<", "<=", ">", ">=", "IS DISTINCT FROM", "BETWEEN", "IN"];
+                            for (k, wv) in want.iter().enumerate() {
+                                if row[3 + k] != Val::Bool(*wv) {
+                                    fail(res, format!("C05|cmp-mixed:{}|{ta}x{tb}", names[k]), &sql, &setv, format!("{a} {} {b} = {wv}", names[k]), format!("{}", row[3 + k]), format!("variant={vn}"));
+                                }
+                            }
+                            res.nontrivial += 1;
+                        }
+                    }
+                    // no common type / not comparable: nothing is asserted
+                    Outcome::Error { .. } => res.skipped += 1,
+                    o => fail(res, format!("C05|{}|cmp-mixed:{ta}x{tb}", bad_class(o).unwrap()), &sql, &setv, "rows".into(), o.brief(), "".into()),
+                }
+            }
+        }
+    }
+}
+
 /// normalise numeric variants so RM's comparator can order them
 fn cmp_norm(v: &Val) -> Val {
     match v {
@@ -794,7 +877,7 @@ pub fn run(tier: Tier) -> i32 {
     let sigs: Vec<Sig> = fnreg::scalar_sigs().into_iter().filter(|s| !s.volatile && s.category != "debug" && s.category != "system").collect();
     let n_sigs = sigs.len();
     // work items: signatures + 4 fixed sub-checks
-    let n = n_sigs + 4;
+    let n = n_sigs + 5;
     let results = par_run(n, W::new, |w, i| {
         let mut res = Res::default();
         if i < n_sigs {
@@ -807,6 +890,7 @@ pub fn run(tier: Tier) -> i32 {
                 0 => check_examples(w, &mut res),
                 1 => check_truth_tables(w, &mut res),
                 2 => check_comparisons(w, &mut res, tier),
+                3 => check_mixed_int_comparisons(w, &mut res, tier),
                 _ => check_precedence(w, &mut res),
             }
         }
@@ -825,7 +909,7 @@ pub fn run(tier: Tier) -> i32 {
     }
     rep.cov("evaluations", json!(evals));
     rep.cov("distinct_nontrivial", json!(nontriv));
-    rep.cov("rule", json!("for every non-volatile scalar signature of BUILTIN_SCALAR_FUNCTION_SETS with arity 1..3 whose argument types have a value alphabet: the full product of the per-type alphabets (NULL, extremes, non-finite, empty, multi-byte, long strings) evaluated (1) on literals, (2) on literals with the optimizer off, then over a VALUES table of the non-erroring tuples in contexts flat / under a selection / inside CASE / duplicated (CSE) / batch_size 1 / batch_size 3 + selection / one argument constant; all contexts must give the literal-context value. Plus every documented example, all AND/OR/NOT expressions of depth <= 2 over the 27 three-valued assignments in SELECT/WHERE/CASE/HAVING/JOIN ON, all comparison and IS/BETWEEN/IN predicates over alphabet x alphabet for 15 types against RM, and all flat arithmetic/boolean expressions of <= 3 operators against a precedence-climbing parse. non-trivial = tuples that evaluate to a value and agree / examples that match"));
+    rep.cov("rule", json!("for every non-volatile scalar signature of BUILTIN_SCALAR_FUNCTION_SETS with arity 1..3 whose argument types have a value alphabet: the full product of the per-type alphabets (NULL, extremes, non-finite, empty, multi-byte, long strings) evaluated (1) on literals, (2) on literals with the optimizer off, then over a VALUES table of the non-erroring tuples in contexts flat / under a selection / inside CASE / duplicated (CSE) / batch_size 1 / batch_size 3 + selection / one argument constant; all contexts must give the literal-context value. Plus every documented example, all AND/OR/NOT expressions of depth <= 2 over the 27 three-valued assignments in SELECT/WHERE/CASE/HAVING/JOIN ON, all comparison and IS/BETWEEN/IN predicates over alphabet x alphabet for 15 types against RM, comparisons between different integer types (12 / 56 ordered type pairs x boundary alphabets) against the mathematical order, and all flat arithmetic/boolean expressions of <= 3 operators against a precedence-climbing parse. non-trivial = tuples that evaluate to a value and agree / examples that match"));
     rep.cov("signatures", json!(n_sigs));
     rep.cov("signatures_skipped_unsupported_types_or_arity", json!(skipped));
     rep.cov("distinct_outcomes", json!(outcomes.into_iter().collect::<Vec<_>>()));
